@@ -557,6 +557,15 @@ namespace c18
           long double z = 0; for(auto k = Tm.row_ptr()[i]; k < Tm.row_ptr()[i + 1]; ++k) z += (long double)Tm.val()[k] * y[Tm.col_ind()[k]];
           VF_CHECK(std::fabs(z - (long double)vc(i)) <= tolr, "intermesh (fine->coarse, " << rcub.c_str() << ", cubature points on the child interfaces): (T P c)[" << i << "] = " << (double)z << " but c[" << i << "] = " << (double)vc(i) << " (tol " << (double)tolr << ")");
         }
+        // the matrix-free counterpart in the same direction: every coarse target cell gathers from SEVERAL fine source cells
+        if(!skip_imv)
+        {
+          Vec yf(ndf, DT_(0)); P.apply(yf, vc); Vec tc(ndc, DT_(0)), wc(ndc, DT_(0));
+          failed = Assembly::GridTransfer::transfer_intermesh_vector(tc, wc, yf, sc, sf, c2f, rcub);
+          VF_CHECK(failed == 0, "intermesh (fine->coarse vector, " << rcub.c_str() << "): " << failed << " cubature points could not be unmapped");
+          wc.component_invert(wc); tc.component_product(tc, wc);
+          for(Index i = 0; i < ndc; ++i) VF_CHECK(std::fabs((long double)tc(i) - (long double)vc(i)) <= tolr, "intermesh (fine->coarse, matrix-free vector transfer): T(P c)[" << i << "] = " << (double)tc(i) << " but c[" << i << "] = " << (double)vc(i) << " (tol " << (double)tolr << ")");
+        }
       }
       if(nthreads > 1)
       {
